@@ -100,9 +100,9 @@ package hook
 //@ func (*Hook).RateLimitWait
 //@   prop C18
 //@   requires h != nil && h.RateLimiter != nil
-//@   modifies rate.lastWaitLimiter, rate.lastLimiterErr, shell_operator.lastWaitHook, shell_operator.lastWaitErr
-//@   ghostset shell_operator.lastWaitHook := h
-//@   ghostset shell_operator.lastWaitErr := result
+//@   modifies rate.lastWaitLimiter, rate.lastLimiterErr, lastWaitHook, lastWaitErr
+//@   ghostset lastWaitHook := h
+//@   ghostset lastWaitErr := result
 //@   ensures [own-limiter] rate.lastWaitLimiter == h.RateLimiter && rate.lastLimiterErr == result
 
 // C18: the limiter of a hook is the one built from its parsed configuration.
@@ -123,6 +123,14 @@ package hook
 // Ghost view of the temporary directory: fsExists[p] = "file p exists". Assumed: a prepare
 // function that returns an error has left no file behind; os.Remove removes the file; names
 // carry a fresh uuid (a successful prepare returns a name that did not exist).
+// Ghost trace of hook executions for the callers (C04, C14, C18): number of runs, the contexts of
+// the latest run and its results; the rate-limit token (hook last waited for, outcome of the wait).
+//@ ghost nRun int
+//@ ghost ranContexts []bctx.BindingContext
+//@ ghost lastWaitHook *Hook
+//@ ghost lastWaitErr error
+//@ ghost lastHookResult *Result
+//@ ghost lastHookErr error
 //@ ghost fsExists map[string]bool
 //@ ghost ctxFileContent bctx.BindingContextList
 //@ ghost nProcess int
@@ -211,15 +219,15 @@ package hook
 // (C18/C04: the run consumes the rate-limit token; ghost trace for the callers.)
 //@ func (*Hook).Run
 //@   prop C12, C18
-//@   requires [rate-limit-token] shell_operator.lastWaitHook == h && shell_operator.lastWaitErr == nil && h != nil
+//@   requires [rate-limit-token] lastWaitHook == h && lastWaitErr == nil && h != nil
 //@   requires h.HookController != nil && h.Config != nil && (h.Config.Version == "v0" || h.Config.Version == "v1") && nProcess >= 0 && !fsExists[""]
 //@   modifies bctx.lastConvIn, bctx.lastConvVersion, bctx.lastConvOut, lastRefreshIn, lastRefreshOut
-//@   modifies shell_operator.nRun, shell_operator.ranContexts, shell_operator.lastWaitHook, shell_operator.lastHookResult, shell_operator.lastHookErr, fsExists, ctxFileContent, nProcess, lastExitErr, nOutputsRead
-//@   ghostset shell_operator.nRun := shell_operator.nRun + 1
-//@   ghostset shell_operator.ranContexts := context
-//@   ghostset shell_operator.lastWaitHook := nil
-//@   ghostset shell_operator.lastHookResult := result0
-//@   ghostset shell_operator.lastHookErr := result1
+//@   modifies nRun, ranContexts, lastWaitHook, lastHookResult, lastHookErr, fsExists, ctxFileContent, nProcess, lastExitErr, nOutputsRead
+//@   ghostset nRun := nRun + 1
+//@   ghostset ranContexts := context
+//@   ghostset lastWaitHook := nil
+//@   ghostset lastHookResult := result0
+//@   ghostset lastHookErr := result1
 //@   ensures [result]            result1 == nil ==> result0 != nil
 //@   ensures [one-process]       nProcess == old(nProcess) || nProcess == old(nProcess) + 1
 //@   ensures [non-zero-exit-fails] nProcess == old(nProcess) + 1 && lastExitErr != nil ==> result1 != nil && nOutputsRead == old(nOutputsRead)
